@@ -104,7 +104,8 @@ def job_exec(args):
             sides = spec['sides']
             hashseeds = spec['hashseeds']
         else:
-            argv, m = X.gen_cmdline(rng, env=spec.get('env'), kinds=spec.get('kinds'), want=spec.get('want', ()))
+            argv, m = X.gen_cmdline(rng, env=spec.get('env'), kinds=spec.get('kinds'), want=spec.get('want', ()),
+                                    sweep=spec.get('sweep'))
             npulses = m.min_pulses() + 2 * len(m.geo)
             sides = [gen.env_side(rng, True, 'hist'), gen.env_side(rng, True, 'orac'),
                      gen.env_side(rng, True, 'hist')]
@@ -123,11 +124,19 @@ def job_exec(args):
                          X.exec_sim(REPO, argv, side, hs, rng, scratch, npulses,
                                     disk={'opt.txt': 'STALE\n' * 200}, pyflags=fl)))
         if spec.get('real'):
-            for tty in (False, True):
-                r = X.exec_real(REPO, argv, rng.randrange(1, 4294967295), rng, scratch, tty=tty, optimize=tty)
+            # what the three standard streams are connected to is part of a
+            # process's circumstances: all pipes; stdout on a terminal;
+            # stdout redirected but stderr (and stdin) on a terminal; all ttys
+            variants = [('real', None, False),
+                        ('real tty', dict(out_tty=True), True),
+                        ('real stderr-tty', dict(out_tty=False, err_tty=True, in_tty=True), False),
+                        ('real all-tty', dict(out_tty=True, err_tty=True, in_tty=True), False)]
+            for name, streams, opt in variants:
+                r = X.exec_real(REPO, argv, rng.randrange(1, 4294967295), rng, scratch,
+                                streams=streams, optimize=opt)
                 if ref['outcome'] == 'rc:23' and r['outcome'] == 'ok':
                     r['outcome'] = 'rc:23'      # __main__ ignores main()'s return value
-                runs.append(('real tty' if tty else 'real', r))
+                runs.append((name, r))
         viol = []
         for name, r in runs[1:]:
             if ref['outcome'] == 'raise:AssertionError' and ('-O' in name or name == 'real tty'):
@@ -148,7 +157,7 @@ def job_exec(args):
                                      detail='%s: %s' % (name, first_diff(r['files'].get(k) or '', ref['files'].get(k) or ''))))
         h = hashlib.sha256(json.dumps([[n, r['outcome'], r['stdout'], r['files']] for n, r in runs],
                                       sort_keys=True).encode()).hexdigest()
-        return dict(ok=True, violations=viol, runs=len(runs) - 1, real=2 if spec.get('real') else 0,
+        return dict(ok=True, violations=viol, runs=len(runs) - 1, real=4 if spec.get('real') else 0,
                     faults=dict(S.FAULTS), digest=h, outcome=ref['outcome'],
                     plan=dict(kind='exec', seed=spec['seed'], argv=argv, npulses=npulses, sides=sides,
                               hashseeds=hashseeds, real=bool(spec.get('real'))),
@@ -426,6 +435,8 @@ def run_tier(tier, seed, workers, budget_s, n_worlds, n_exec, n_real, n_traced=0
                            dict(kinds=['skin_r', 'insulation'])]
             for i in range(n_exec):
                 spec = dict(seed=seed * 1000003 + 500000 + i, scratch=scratch, real=(i < n_real))
+                if i < n_real:
+                    spec['sweep'] = (i % 2 == 1)     # every second real case is a sweep
                 if i < len(floor_exec):
                     spec.update(floor_exec[i])
                 futs[ex.submit(job_exec, spec)] = 'exec'
